@@ -687,3 +687,201 @@ func zzC03_errors() {
 	allFalse(r, 2)
 	verifReach("batch errors")
 }
+
+// ---------------------------------------------------------------------------------------------
+// C06: threshold key generation and reconstruction
+
+// zzC06_keygen: the shares of BLSThresholdKeyGen lie on one polynomial: every private share matches its
+// public share, and reconstruction from the signer set `set` (bit i = signer i), in the given rotation,
+// through the stateless API yields the signature of the group key.
+func zzC06_stateless(n, t, set, rot int) {
+	seed := nondetBytes(KeyGenSeedMinLen)
+	sks, pks, gpk, err := BLSThresholdKeyGen(n, t, seed)
+	verifAssert(err == nil, "key generation accepts valid parameters")
+	verifAssert(bAnd(len(sks) == n, len(pks) == n), "n shares")
+	for i := 0; i < n; i++ {
+		verifAssert(sks[i].PublicKey().Equals(pks[i]), "each private share matches its public share")
+	}
+	assumeNoZeroShare(pks, gpk)
+	msg := nondetBytes(2)
+	h := testHasher("thr-tag")
+	signers := make([]int, 0, n)
+	for i := 0; i < n; i++ {
+		if (set>>uint(i))&1 == 1 {
+			signers = append(signers, i)
+		}
+	}
+	k := len(signers)
+	ord := make([]int, k)
+	for i := 0; i < k; i++ {
+		ord[i] = signers[(i+rot)%k]
+	}
+	shares := make([]Signature, k)
+	for i, s := range ord {
+		shares[i], _ = sks[s].Sign(msg, h)
+		ok, _ := pks[s].Verify(shares[i], msg, h)
+		verifAssert(ok, "a signature share verifies under its public key share")
+	}
+	sig, err := BLSReconstructThresholdSignature(n, t, shares, ord)
+	if k < t+1 {
+		verifAssert(bAnd(sig == nil, IsNotEnoughSharesError(err)), "fewer than t+1 shares give a not-enough-shares error")
+		verifReach("stateless not enough")
+		return
+	}
+	verifAssert(err == nil, "reconstruction succeeds with at least t+1 valid shares")
+	ok, err := gpk.Verify(sig, msg, h)
+	verifAssert(bAnd(ok, err == nil), "the reconstructed signature is valid under the group public key")
+	// the same bytes for another order (reverse)
+	rshares, rord := make([]Signature, k), make([]int, k)
+	for i := 0; i < k; i++ {
+		rshares[i], rord[i] = shares[k-1-i], ord[k-1-i]
+	}
+	sig2, err := BLSReconstructThresholdSignature(n, t, rshares, rord)
+	verifAssert(err == nil, "reconstruction in another order succeeds")
+	assertEqBytes(sig2, sig, "the reconstructed signature does not depend on the order of the shares")
+	verifReach("stateless")
+}
+
+// a key share (or the group key) of a random polynomial is zero with probability 1/r: excluded
+func assumeNoZeroShare(pks []PublicKey, gpk PublicKey) {
+	for _, pk := range pks {
+		verifAssume(!pk.(*pubKeyBLSBLS12381).isIdentity)
+	}
+	verifAssume(!gpk.(*pubKeyBLSBLS12381).isIdentity)
+}
+
+// zzC06_subsets: two different signer sets give the same 48 bytes.
+func zzC06_subsets(n, t, set1, set2 int) {
+	seed := nondetBytes(KeyGenSeedMinLen)
+	sks, pks, gpk, _ := BLSThresholdKeyGen(n, t, seed)
+	assumeNoZeroShare(pks, gpk)
+	msg := nondetBytes(2)
+	h := testHasher("thr-tag")
+	rec := func(set int) Signature {
+		var shares []Signature
+		var signers []int
+		for i := 0; i < n; i++ {
+			if (set>>uint(i))&1 == 1 {
+				s, _ := sks[i].Sign(msg, h)
+				shares = append(shares, s)
+				signers = append(signers, i)
+			}
+		}
+		sig, err := BLSReconstructThresholdSignature(n, t, shares, signers)
+		verifAssert(err == nil, "reconstruction succeeds")
+		return sig
+	}
+	a, b := rec(set1), rec(set2)
+	assertEqBytes(a, b, "every set of at least t+1 signers reconstructs the same signature")
+	ok, _ := gpk.Verify(a, msg, h)
+	verifAssert(ok, "valid under the group public key")
+	verifReach("subsets")
+}
+
+// zzC06_stateful: the stateful object: shares are added (TrustedAdd or VerifyAndAdd); an invalid share
+// added with TrustedAdd makes ThresholdSignature fail instead of returning an unverified signature.
+func zzC06_stateful(n, t, set int, badKind int, trusted bool) {
+	seed := nondetBytes(KeyGenSeedMinLen)
+	sks, pks, gpk, _ := BLSThresholdKeyGen(n, t, seed)
+	assumeNoZeroShare(pks, gpk)
+	msg := nondetBytes(2)
+	ts, err := NewBLSThresholdSignatureInspector(gpk, pks, t, msg, "thr-tag")
+	verifAssert(err == nil, "inspector constructor")
+	h := testHasher("thr-tag")
+	added := 0
+	first := true
+	for i := 0; i < n; i++ {
+		if (set>>uint(i))&1 == 0 {
+			continue
+		}
+		share, _ := sks[i].Sign(msg, h)
+		bad := first && badKind > 0
+		if bad {
+			switch badKind {
+			case 1: // a different G1 element
+				var d scalar
+				nondetFrStar(&d)
+				var dG, c pointE1
+				generatorScalarMultG1(&dG, &d)
+				addE1(&c, decodeSigPoint(share), &dG)
+				share = make([]byte, g1BytesLen)
+				writePointE1(share, &c)
+			case 2: // the share of another signer (two key shares coincide with probability 1/r: excluded)
+				verifAssume(!sks[i].Equals(sks[(i+1)%n]))
+				share, _ = sks[(i+1)%n].Sign(msg, h)
+			case 3: // malformed
+				share = BLSInvalidSignature()
+			}
+		}
+		first = false
+		if trusted {
+			enough, err := ts.TrustedAdd(i, share)
+			verifAssert(err == nil, "TrustedAdd of a new signer")
+			if added < t+1 {
+				added++
+			}
+			verifAssert(enough == (added == t+1), "TrustedAdd reports whether enough shares were collected")
+		} else {
+			valid, enough, err := ts.VerifyAndAdd(i, share)
+			verifAssert(err == nil, "VerifyAndAdd of a new signer")
+			verifAssert(valid == !bad, "VerifyAndAdd reports the validity of the share")
+			if valid && added < t+1 {
+				added++
+			}
+			verifAssert(enough == (added == t+1), "VerifyAndAdd reports whether enough shares were collected")
+		}
+		has, _ := ts.HasShare(i)
+		verifAssert(bOr(has, bOr(bAnd(!trusted, bad), added == t+1)), "an accepted share is retained (unless enough were already collected)")
+	}
+	verifAssert(ts.EnoughShares() == (added == t+1), "EnoughShares")
+	sig, err := ts.ThresholdSignature()
+	if added < t+1 {
+		verifAssert(bAnd(sig == nil, IsNotEnoughSharesError(err)), "not enough shares")
+		verifReach("stateful not enough")
+		return
+	}
+	if sig != nil {
+		ok, _ := gpk.Verify(sig, msg, h)
+		verifAssert(ok, "the stateful object never returns a threshold signature that fails verification under the group key")
+		again, err := ts.ThresholdSignature()
+		verifAssert(err == nil, "second call succeeds")
+		assertEqBytes(again, sig, "later calls return the same signature")
+		verifReach("stateful signature")
+	} else {
+		verifAssert(err != nil, "nil signature comes with an error")
+		verifAssert(bAnd(trusted, badKind > 0), "reconstruction only fails if an invalid share was added with TrustedAdd")
+		verifReach("stateful rejected")
+	}
+}
+
+func zzC06_errors() {
+	seed := nondetBytes(KeyGenSeedMinLen)
+	size, thr := nondetInt(), nondetInt()
+	verifAssume(bOr(bOr(size < 2, size > 254), bOr(thr < 1, thr >= size)))
+	_, _, _, err := BLSThresholdKeyGen(size, thr, seed)
+	verifAssert(IsInvalidInputsError(err), "key generation rejects sizes / thresholds outside the documented ranges")
+	sks, _, _, _ := BLSThresholdKeyGen(3, 1, seed)
+	msg := nondetBytes(2)
+	h := testHasher("thr-tag")
+	s0, _ := sks[0].Sign(msg, h)
+	s1, _ := sks[1].Sign(msg, h)
+	_, err = BLSReconstructThresholdSignature(3, 1, []Signature{s0, s1}, []int{0, 0})
+	verifAssert(IsDuplicatedSignerError(err), "duplicate signer")
+	idx := nondetInt()
+	verifAssume(bOr(idx < 0, idx >= 3))
+	_, err = BLSReconstructThresholdSignature(3, 1, []Signature{s0, s1}, []int{0, idx})
+	verifAssert(IsInvalidInputsError(err), "out-of-range signer")
+	_, err = BLSReconstructThresholdSignature(3, 1, []Signature{s0, s1}, []int{0})
+	verifAssert(IsInvalidInputsError(err), "mismatched lists")
+	_, err = BLSReconstructThresholdSignature(3, 1, []Signature{s0}, []int{0})
+	verifAssert(IsNotEnoughSharesError(err), "not enough shares")
+	_, err = BLSReconstructThresholdSignature(3, 1, []Signature{s0, BLSInvalidSignature()}, []int{0, 1})
+	verifAssert(IsInvalidSignatureError(err), "malformed share")
+	e, err := EnoughShares(1, 2)
+	verifAssert(bAnd(e, err == nil), "EnoughShares(1, 2)")
+	e, err = EnoughShares(1, 1)
+	verifAssert(bAnd(!e, err == nil), "EnoughShares(1, 1)")
+	_, err = EnoughShares(0, 1)
+	verifAssert(IsInvalidInputsError(err), "EnoughShares threshold 0")
+	verifReach("threshold errors")
+}
